@@ -193,7 +193,7 @@ PROPS["C01"] = {
     "rule": "order (cubic/quintic/septic) x dimension 1..10 (one binary each) x " + _S4 + "; 1/4 of the cases use exactly representable (dyadic) times; BoundaryConditions built by field assignment or the "
             "2-/4-/6-argument constructor; route in {ctor(durations,start), ctor(time points), default+update(durations), default+update(time points), update of an object that held and answered queries for "
             "a different problem}. non-trivial = N >= 2, or N = 1 with a non-zero boundary derivative; distinct = hash of consumed tape",
-    "tolerances": {"interpolation / boundary states": "1e-8 relative to max(data magnitude, Horner abs-sum of the segment) [+ |v| ulp(t) for evaluation at global times]",
+    "tolerances": {"interpolation / boundary states": "1e-12 cubic / 1e-11 quintic / 1e-9 septic relative to max(data magnitude, Horner abs-sum of the segment) [+ |v| ulp(t) for evaluation at global times]; >= 400x the worst residual measured over 3e6 cases",
                    "time specifications": "bitwise for dyadic times; 1e-8 normalised otherwise when ulp(t_max)/T_min <= 1e-12", "knot times": "2(i+2) ulp(t_max)"},
     "assumptions": ["finite inputs with |value| <= ~1e10; values near overflow are not explored", "well-scaled duration domain of DESIGN.md s4"],
 }
@@ -272,7 +272,7 @@ PROPS["C05"] = {
     "rule": "order x dimension (quick 1,2,3,4,6,8,10; thorough 1..10) x N (1,2,3 over-represented, up to 16) x " + _S4 + "; per case three upstream gradients from the classes {dense, single unit entry (any coefficient row), "
             "only the rows c_0..c_{s-1}, one segment's block, zero gdC with unit gdT, sparse c_0 rows}, each after a history of 0..3 earlier propagateGrad calls with unrelated gradients through both overloads interleaved with "
             "getEnergy/evaluate. Oracle: dense long-double Jacobian of (P,T,bc)->coefficients (R4), every output component compared. non-trivial = a unit-vector / low-rows / c_0-rows upstream gradient, or N <= 2",
-    "tolerances": {"generic components": "1e-7 * sigma, sigma = |J|^T|G| (sum of absolute terms)", "components vanishing by exact cancellation": "1e-12 (cubic) / 1e-11 (quintic) / 1e-10 (septic) of the natural magnitude of such an entry",
+    "tolerances": {"generic components": "1e-9 (cubic) / 1e-7 (quintic) / 1e-7 (septic) * sigma, sigma = |J|^T|G| (sum of absolute terms); with all-equal or nearly-equal durations 1e-9 / 1e-9 / 3e-8", "components vanishing by exact cancellation": "1e-12 (cubic) / 1e-11 (quintic) / 1e-10 (septic) of the natural magnitude of such an entry",
                    "linearity (power-of-two factors), history independence, overloads": "bitwise"},
     "assumptions": ["well-scaled duration domain of DESIGN.md s4", "reference Jacobian validated against central differences of the reference solve in --selftest"],
 }
@@ -283,7 +283,7 @@ PROPS["C06"] = {
             "buffers) vs the exact derivative of the energy integral of the published coefficients, (ii) getEnergyGrad and its three parts vs the reference Jacobian applied to the reference partials at the reference minimiser "
             "(no library code), (iii) for 1/3 of the cases (N <= 8) central differences with Richardson extrapolation of the REPORTED getEnergy() w.r.t. every duration, waypoint coordinate and boundary-state component, "
             "(iv) propagateGrad(partials) vs the same reference. non-trivial = non-zero boundary derivatives and N >= 2",
-    "tolerances": {"partials": "1e-11 of the sum of absolute terms", "totals": "as C05", "finite differences": "1e-6 * sigma + 2|D(h/2)-D(h)| + (8 eps + order-specific solve noise) |E| / h"},
+    "tolerances": {"partials": "1e-11 of the sum of absolute terms", "totals (direct and propagated partials)": "1e-11 (cubic) / 1e-10 (quintic) / 1e-9 (septic) * sigma + structural-zero floor as C05", "finite differences": "1e-6 * sigma + 2|D(h/2)-D(h)| + (8 eps + order-specific solve noise) |E| / h"},
     "assumptions": ["well-scaled duration domain of DESIGN.md s4"],
 }
 
@@ -502,3 +502,29 @@ for _p in FUZZ:
     _old = PROPS[_p]["jobs"]
     PROPS[_p]["jobs"] = (lambda old, p: (lambda tier: old(tier) + fuzz_jobs(p, tier)))(_old, _p)
     PROPS[_p]["rule"] += "; plus a libFuzzer front end on the same check function (quick: replay of the committed corpus; thorough: 4 campaigns of 4e5 runs from that corpus)"
+
+# generator features added after the third and fourth seeding rounds (DESIGN.md s5, s6.1); each is a labelled class in class_counters
+_ADDED = {
+    "C01": "reused objects also hold the same problem except ONE ingredient (durations / waypoints / boundary state / start time) submitted through either overload; defaulted boundary argument",
+    "C02": "objects that held the same problem except one ingredient (whole boundary argument, one boundary field, waypoints, order of the durations), or a larger problem of which the new one is a bit-equal prefix",
+    "C03": "offsets of 1e-9..1e-5 around every breakpoint; objects assigned or updated over an evaluated polynomial",
+    "C04": "a quarter of the cases scale the whole time axis by 10^k, k in -8..-3 and 3..5",
+    "C05": "objects that propagated at a larger size before; linearity with factors 2^-100..2^100",
+    "C06": "objects that propagated (and answered energy queries) at a larger size before",
+    "C07": "linear-deviation waypoint cost that vanishes exactly at the reference; unperturbed initial guess; either setInitState overload; the same vector evaluated for another problem first (1/4)",
+    "C08": "either setInitState overload; time variables decoding to 4e-4..2e-5 s (1/8); K uniform in 1..256 (1/3); copy-constructed / assigned optimizer as the object under test (1/4)",
+    "C09": "time variables decoding below 1 ms; runs ending with the initial guess again; knot times / end time of the exposed spline; C09h re-initialisations that change one ingredient (start time only, one boundary component, one waypoint coordinate, nothing)",
+    "C10": "updates identical to the previous one, identical except one ingredient, truncated or extended, with the boundary argument omitted",
+    "C11": "the first accessor after construction / update drawn from {getPPolyCopy, getTrajectoryCopy, old reference, getTrajectory, getPPoly}",
+    "C12": "a fifth of the decision vectors decode to nearly-equal durations (2^-21..2^-44 apart); OpenMPExecutor also called from an outer OpenMP parallel region of 2-4 threads",
+    "C13": "a quarter of the objects were updated after evaluating a near-identical problem; the D-dimensional answers are re-queried after all other objects were built",
+    "C14": "a quarter of the objects (originals and transformed twins) were updated after evaluating a near-identical problem; mirrored gradients through getEnergyGrad and through propagateGrad(energy partials)",
+    "C15": "spline copies with 1..5, 31, 32, 33, 40 segments, copy / assignment / copy of copy / trajectory copy, source updated / assigned over / destroyed, every piece probed; updating a copy leaves the source alone",
+    "C16": "identical resubmission; huge finite values; optimisation flags set before a third of the initialisations; time stamps far from zero whose difference is the last double below / first at 1 ms",
+    "C17": "a quarter of the cases add dense runs of 96 consecutive doubles (random 52-bit mantissa, |tau| in 2^-14..2^6, T in 2^-10..2^6): monotone and round trip at every point",
+    "C18": "start times other than 0; time-point overload; objects that held the same problem except one ingredient or a longer trajectory with a bit-equal prefix",
+    "C19": "whole cost scaled by 10^-4..10^-10 (1/6); a second self-check on the same object at another vector, half of them after a re-initialisation with other fixed data (1/3); N up to 16; vectors and norms of the failing check compared with the model",
+    "C20": "steps that nearly divide the interval, also steps up to 1000 with remainders of a few millionths of a step; repeated / all-equal breakpoints for the factories; enumerator overloads; length on an object queried, updated in place and queried again",
+}
+for _p, _txt in _ADDED.items():
+    PROPS[_p]["rule"] += "; added after seeding rounds 3-4: " + _txt
